@@ -676,6 +676,13 @@ attrsLoop:
 						if u.Host != "" {
 							externalLink = true
 						}
+						// net/url finds no host in "https:example.com/x" or
+						// "http:/example.com", a browser does: for these
+						// schemes the slashes after the colon are optional.
+						if (u.Scheme == "http" || u.Scheme == "https") &&
+							strings.Trim(u.Opaque+u.Path, `/\`) != "" {
+							externalLink = true
+						}
 
 						continue
 					}
